@@ -4,6 +4,10 @@ TB = ("Trusted: Lean 4.33 kernel (axioms at most propext, Classical.choice, Quot
       "the hand-written model, tied to the code only by the correspondence run (differential testing of the model's executable definitions against the real crate on generated and enumerated inputs); "
       "SHA-256 as a free term algebra. ")
 TEXT = {
+    "C03": {
+        "text": "Theorems: every artefact skeleton the SDK persists or sends (vault rows, secret events, vault headers, identity-vault entries, file blobs, id-only events, audit rows, sync messages of any length) keeps every secret under an encryption; from ANY set of such terms, without a key, no secret and no key is derivable (Dolev-Yao induction); over the event definitions regenerated from the source, the only String payloads are folder/account names and every payload type is a known identifier / sealed / encoded type. Tie: implementation-side byte scan of all client and server files (sqlite pages, WAL, vaults, logs, blobs) and of every encoded sync message for 60+ high-entropy markers placed in every text position, in raw/hex/base64/UTF-16 forms, with a scanner self-check.",
+        "note": TB + "Partial: cipher strength, memory, swap, stderr tracing are runtime aspects outside the model; pairing messages not exercised.",
+    },
     "C10": {
         "text": "Theorems: the stored AeadPack encoding is canonical (whatever bytes decode to a pack ARE its encoding, so every byte-level modification decodes to an error or a different nonce/ciphertext); the nonce-length gate separates the two ciphers; same password with a different salt or seed derives a different key (the KDF input is password ++ seed); another password does not unlock; over any sequence of encryptions under a key all nonces are pairwise distinct. Definitional in the symbolic model (and therefore only TESTED against the real ciphers): decrypt∘encrypt = id, other key fails, tampering fails. Tie: differential tests on both ciphers (all sizes, all single-bit flips of small packs, structural mutations, wrong key, wrong cipher), KDF pairwise distinctness, and the nonce multiset of every pack found in the event logs after generated account histories.",
         "note": TB + "Partial: RNG quality and the cipher implementations themselves cannot be exhibited by the model.",
